@@ -7,15 +7,16 @@ from . import paths as P
 from .C03 import production_closures, PM, IE
 
 EXPLANATION = (
-    "Decides structural necessary conditions of C12 from MIR: (R1) sync::Subscribers::send/send_with are called only in "
+    'Decides structural necessary conditions of C12 from MIR: (R1) sync::Subscribers::send/send_with are called only in '
     "Replica::insert_entry, dominated by the Inserted edge of put's outcome, and in the on-insert callback of "
-    "sync_process_message; in process_message the on-insert callback is dominated by the Inserted edge of put, which is "
-    "dominated by validate_cb == true; (R2) exactly one announce site per ingress and no path from the Inserted edge to a return "
-    "or to the next entry bypasses it; (R3) payload provenance: entry = the entry passed to put, from = the providing peer, "
-    "remote_content_status = the status received with it, should_download = DownloadPolicy::matches(policy of this namespace, "
-    "that entry), LocalInsert only under origin Local; (R4) unsubscribe retains exactly the senders that are not the same "
-    "channel and send keeps a sender iff its send succeeded. NOT decided: order of delivery across subscribers under "
-    "back-pressure."
+    'sync_process_message; in process_message the on-insert callback is dominated by the Inserted edge of put, which is '
+    'dominated by validate_cb == true; (R2) exactly one announce site per ingress and no path from the Inserted edge to a '
+    'return or to the next entry bypasses it; (R3) payload provenance: entry = the entry passed to put, from = the '
+    'providing peer, remote_content_status = the status received with it, should_download = DownloadPolicy::matches(policy '
+    'of this namespace, that entry), LocalInsert only under origin Local; (R4) unsubscribe retains exactly the senders that'
+    ' are not the same channel and the per-subscriber delivery future, evaluated with awaits driven to completion, keeps a '
+    'subscriber whose send of this event succeeded (a closed one may be dropped), the list being rebuilt from the previous '
+    'senders. NOT decided: order of delivery across subscribers under back-pressure.'
 )
 ASSUMPTIONS = ["async_channel delivers a sent event exactly once to its receiver", "generic callbacks bound to the closures of the unique production call"]
 
